@@ -14,7 +14,9 @@ from common import *
 
 FAMILY = "grp"
 PENDING_FINDINGS = os.path.join(VERIF, "pending_repo_patches", "C16_findings.json")
-QUIRK_NAMES = ["startFix", "noackFix", "rangeFix", "histFix", "redeliverFix", "filterFix"]
+QUIRK_NAMES = ["startFix", "noackFix", "rangeFix", "histFix", "redeliverFix", "filterFix", "multiFix", "nameFix", "maxIdFix"]
+MAXID = "18446744073709551615-18446744073709551615"
+BINARY = (100, 101)          # the two distinct non-UTF-8 names g\\xff / g\\xfe (c\\xff / c\\xfe); 199 = their lossy image
 
 
 # ------------------------------------------------------------------ which repairs does the tree have?
@@ -77,6 +79,22 @@ def detect_quirks():
     else:
         # repaired form: an id that is already pending is moved with transfer_ownership and only new ids are counted
         q["redeliverFix"] = bool(re.search(r"get_entry_mut\([^)]*\)[^;]*\{.*transfer_ownership\(", ap, re.S)) and not re.search(r"\+=\s*entries\.len\(\)", ap)
+    hc = read("storage/commands/consumer_groups.rs")
+    xr = body(hc, r"pub\s+fn\s+handle_xreadgroup\s*\([^{]*\{")
+    if xr is None:
+        problems.append("handle_xreadgroup not found")
+        q["multiFix"] = q["maxIdFix"] = False
+    else:
+        # repaired form: the group of every stream is looked up (validation pass) before the first read_group call
+        first_read = xr.find("read_group(")
+        q["multiFix"] = first_read >= 0 and "get_consumer_group(" in xr[:first_read]
+        # repaired form: an explicit id equal to the marker is told apart from `>`
+        q["maxIdFix"] = bool(re.search(r'after_id\s*==\s*StreamId::max\(\)\s*&&\s*id_str\s*!=\s*">"', xr))
+    # repaired form: no group / consumer name is converted lossily any more
+    name_sites = re.findall(r"(?:group_name|consumer_name|let\s+consumer)\s*=\s*(?:if[^{]*\{\s*)?match[^{]*\{\s*RespFrame::BulkString\(Some\(bytes\)\)\s*=>\s*(?:Some\()?([A-Za-z_:0-9]+)", hc)
+    if not name_sites:
+        problems.append("no group/consumer name parsing site found in commands/consumer_groups.rs")
+    q["nameFix"] = bool(name_sites) and not any("from_utf8_lossy" in x for x in name_sites)
     return q, problems
 
 
@@ -119,6 +137,30 @@ def parse_answer(ans):
         d = Dump(s.split(" "))
         groups[d.g] = d
     return reply, stream, groups
+
+
+def name_words(w):
+    """the group / consumer name tokens of a request"""
+    if w[0] == "bad":
+        return [w[2]]
+    if w[0] in ("createc", "delc", "read", "claim", "autoclaim", "mread"):
+        return [w[1], w[2]]
+    if w[0] == "prange":
+        return [w[1], w[5]]
+    if w[0] in ("reset", "add", "del", "sleep"):
+        return []
+    return [w[1]]
+
+
+def uses_binary_name(op):
+    return any(t.isdigit() and int(t) in BINARY for t in name_words(op.split(" ")))
+
+
+def handler_only(op):
+    """input classes that exist only at command level: binary names (the typed API takes Rust strings), reads over several
+    streams, and the explicit id that equals the API's own marker for `>`"""
+    w = op.split(" ")
+    return w[0] == "mread" or uses_binary_name(op) or (w[0] == "read" and w[3] == MAXID)
 
 
 def op_group(op):
@@ -209,10 +251,33 @@ class Gen:
             return "destroy %d" % g
         return "bad %s %d" % (r.choice(BAD_KINDS), g)
 
+    def handler_level(self, stream, groups):
+        """input classes of the command level: reads over two streams with a failing later stream, binary (non-UTF-8) group
+        and consumer names, border ids as explicit read ids"""
+        r = self.r
+        have = [g for g in groups if g in GROUPS]
+        g = r.choice(have) if have and r.chance(4, 5) else r.choice(GROUPS)
+        c = r.choice(CONSUMERS)
+        k = r.below(12)
+        fixed = self.quirks
+        if k < 4 and (not self.clean or fixed.get("multiFix")):
+            return "mread %d %d %s %d %s" % (g, c, r.choice(["-", "1", "2"]), 1 if r.chance(1, 6) else 0, r.choice(["nogroup", "wrongtype", "badid"]))
+        if k < 8 and (not self.clean or fixed.get("nameFix")):
+            bg, bc = r.choice(BINARY), r.choice(BINARY)
+            return r.choice(["create %d 0-0" % bg, "create %d $" % bg, "read %d %d > - 0" % (bg, bc), "read %d %d > 1 0" % (g, bc), "delc %d %d" % (g, bc),
+                             "createc %d %d" % (g, bc), "claim %d %d 0 0 %s" % (g, bc, sids(self.some_ids(stream, groups, g, 2))), "pending %d" % bg,
+                             "destroy %d" % bg, "setid %d $" % bg, "ack %d %s" % (bg, sids(self.some_ids(stream, groups, g, 2))), "prange %d - + 10 %d" % (g, bc)])
+        if not self.clean or (fixed.get("histFix") and fixed.get("maxIdFix")):
+            border = r.choice([MAXID, MAXID, "18446744073709551615-0", "0-18446744073709551615", "18446744073709551615-18446744073709551614", "0-1", "0-0"])
+            return "read %d %d %s %s 0" % (g, c, border, r.choice(["-", "1"]))
+        return "pending %d" % g
+
     def next_op(self, stream, groups):
         r, clean = self.r, self.clean
         missing = [g for g in GROUPS if g not in groups]
         k = r.below(100)
+        if r.chance(1, 14):
+            return self.handler_level(stream, groups)
         if missing and (k < 25 or (len(missing) == len(GROUPS) and k < 60)):
             g = r.choice(missing)
             return "create %d %s" % (g, self.start_id(stream, groups, g))
@@ -319,6 +384,8 @@ class Runner:
         `judge_op`: the operation as the Spec oracle should see it (real-time layer: the idle token replaced by the
         outcome the clock prescribes); "" = do not judge this step."""
         rep = self.rep
+        if not self.handlers and handler_only(op):
+            return {"op": op, "impl": "skipped", "code": "skipped", "verdict": None, "oracle": []}
         a = self.impl.ask(op)
         b = self.ask_model(op)
         rep.evaluations += 1
@@ -348,7 +415,19 @@ class Runner:
         g = op_group(op)
         # ---- first-class oracle: a REFUSED command (BUSYGROUP, NOGROUP, refused XADD, malformed / wrong-type command) changes
         #      nothing: the stream and every representation of every group are exactly what they were
-        if reply in REFUSALS or w[0] == "bad":
+        if uses_binary_name(op):
+            judge_op = ""         # judged by the name oracle / the refusal oracle: the Spec step has no group to start from
+        if uses_binary_name(op) and reply not in REFUSALS:
+            # distinct names are distinct groups / consumers: the command either is refused or acts under exactly its names
+            rep.count("binary-name." + w[0])
+            if re.search(r"(^| )199=|:199:|\|199=", " ".join(d.text for d in groups.values())) or 199 in groups:
+                out["oracle"].append(("names", "`%s` uses a non-UTF-8 name; the dump shows it merged into the replacement-character name (199): %s"
+                                      % (op, [d.text for d in groups.values()])))
+        if w[0] == "mread":
+            rep.count("multi-stream-read." + w[5] + ("" if reply == "refused" else ".answered"))
+            if reply != "refused":
+                out["oracle"].append(("refused-op", "XREADGROUP over two streams with a failing second stream (%s) was not refused: %s" % (w[5], reply)))
+        if reply in REFUSALS or w[0] in ("bad", "mread"):
             cls = "%s.%s" % (w[0] if w[0] != "bad" else "bad-" + w[1], reply.split(":")[0])
             loaded = g in p_groups and bool(p_groups[g].pending_ids or p_groups[g].last != (0, 0))
             rep.count("refused." + cls + (".group-with-state" if loaded else ""))
@@ -362,7 +441,7 @@ class Runner:
                 out["oracle"].append(("refused-op", "`%s` was refused (%s) but changed %s: before %s / after %s" % (
                     op, reply, "group(s) %s" % changed if changed else "the stream",
                     [before.get(h) for h in changed] or sids(p_stream), [after.get(h) for h in changed] or sids(stream))))
-            if w[0] == "bad":
+            if w[0] in ("bad", "mread"):
                 self.prev = (reply, stream, groups)
                 return out
         if g is not None and judge_op != "" and not (reply == "nogroup" and g not in p_groups):
@@ -565,8 +644,14 @@ def shapes_of(step, taint):
     core = [a for a in aspects if not a.startswith("pre-disagrees")]
     pre_bad = any(a.startswith("pre-disagrees") for a in aspects)
     shapes = set()
+    if uses_binary_name(op):
+        return ["binary-names-collide"]           # every symptom of a step that names a binary group / consumer
+    if w[0] == "mread":
+        return ["multi-stream-partial-delivery"] if all(k == "refused-op" and "changed" in d for k, d in step["oracle"]) else []
     for kind, det in step["oracle"]:
-        if kind == "step":
+        if kind == "step" and w[0] == "read" and w[3] == MAXID:
+            shapes.add("explicit-max-id-read-as-gt")
+        elif kind == "step":
             if w[0] == "create" and core == ["cursor"] and w[2] != "0-0":
                 shapes.add("start-ignored")
             elif w[0] == "read" and w[3] == ">" and w[5] == "1" and core == ["cursor"]:
@@ -586,7 +671,7 @@ def shapes_of(step, taint):
                 return []
         elif kind == "exactly-once":
             t = taint.get(g, set())
-            if t & {"start-ignored", "noack-no-advance", "explicit-id-rereads-stream"}:
+            if t & {"start-ignored", "noack-no-advance", "explicit-id-rereads-stream", "multi-stream-partial-delivery", "explicit-max-id-read-as-gt"}:
                 shapes.add("consequence")
             else:
                 return []
@@ -625,6 +710,12 @@ CORPUS = {
     "xpending-reversed-range-panics": ["add 1-0", "create 1 0-0", "read 1 1 > - 0", "prange 1 5-0 1-0 10 -"],
     "xpending-consumer-filter-ignores-range": ["add 1-0", "add 2-0", "create 1 0-0", "read 1 1 > - 0", "prange 1 2-0 2-0 10 1"],
 }
+CORPUS_H = {
+    # witnesses that exist only at command level (run through the handlers)
+    "multi-stream-partial-delivery": ["add 1-0", "add 2-0", "create 1 0-0", "mread 1 1 - 0 nogroup", "read 1 2 > - 0"],
+    "binary-names-collide": ["add 1-0", "create 100 0-0", "create 101 0-0", "read 100 100 > - 0", "read 101 101 > - 0", "pending 101"],
+    "explicit-max-id-read-as-gt": ["add 1-0", "create 1 0-0", "read 1 1 %s - 0" % MAXID, "pending 1"],
+}
 EXTRA_CORPUS = [
     # refused administration on a group WITH STATE changes nothing (second CREATE at the same / another start id / $, NOGROUP, malformed)
     ["add 1-0", "add 2-0", "add 3-0", "create 1 0-0", "read 1 1 > 2 0", "read 1 2 > 1 0", "ack 1 1-0", "create 1 0-0", "pending 1",
@@ -641,7 +732,8 @@ EXTRA_CORPUS = [
 def quirk_of_shape(shape):
     return {"start-ignored": "startFix", "noack-no-advance": "noackFix", "xpending-reversed-range-panics": "rangeFix",
             "explicit-id-rereads-stream": "histFix", "redelivery-breaks-accounting": "redeliverFix",
-            "xpending-consumer-filter-ignores-range": "filterFix"}.get(shape)
+            "xpending-consumer-filter-ignores-range": "filterFix", "multi-stream-partial-delivery": "multiFix",
+            "binary-names-collide": "nameFix", "explicit-max-id-read-as-gt": "maxIdFix"}.get(shape)
 
 
 def shrink_history(runner, ops, still_fails):
@@ -694,7 +786,7 @@ def main(tier, seed):
     def account(ops, steps, profile, timed=None):
         for i, s in enumerate(steps):
             if s["impl"] != s["code"]:
-                disagreements.append({"ops": ops if timed else ops[:i + 1], "op": s["op"], "impl": s["impl"], "code": s["code"], "timed": timed,
+                disagreements.append({"ops": ops if timed else ops[:i + 1], "op": s["op"], "impl": s["impl"], "code": s["code"], "timed": timed, "handlers": "handlers" in profile,
                                       "steps": steps if timed else None})
                 break
         known, unexplained = first_failures(steps)
@@ -705,7 +797,7 @@ def main(tier, seed):
                 unexplained.append((i, s))
         if unexplained:
             i = min(u[0] for u in unexplained)
-            new_failures.append((ops, steps, i, timed))
+            new_failures.append((ops, steps, i, timed, "handlers" in profile))
         for s in steps:
             w = s["op"].split(" ")
             reply = (s["impl"] or "abort").split(" ;; ")[0]
@@ -724,6 +816,13 @@ def main(tier, seed):
             reproduced = shape in known
             qn = quirk_of_shape(shape)
             if shape in by_shape and not reproduced and not (qn and quirks.get(qn)):
+                rep.violation("known finding %s no longer reproduces on its witness: the known-findings list / model is stale" % by_shape[shape]["id"],
+                              {"finding": by_shape[shape], "replay": replay_obj(ops, steps, len(ops) - 1, quirks)}, no_input=True)
+        for shape, ops in CORPUS_H.items():
+            steps = hrun.run_history(ops)
+            account(ops, steps, "corpus-handlers")
+            known, unexplained = first_failures(steps)
+            if shape in by_shape and shape not in known:
                 rep.violation("known finding %s no longer reproduces on its witness: the known-findings list / model is stale" % by_shape[shape]["id"],
                               {"finding": by_shape[shape], "replay": replay_obj(ops, steps, len(ops) - 1, quirks)}, no_input=True)
         for ops in EXTRA_CORPUS:
@@ -755,7 +854,7 @@ def main(tier, seed):
                 ops.append(op)
                 steps.append(st)
             account(ops, steps, "clean" if clean else "quirky")
-            if h % 3 == 0:
+            if h % 2 == 0:
                 # the same history through the command handlers
                 account(ops, hrun.run_history(ops), "clean-handlers" if clean else "quirky-handlers")
             if h < 3:
@@ -782,7 +881,7 @@ def main(tier, seed):
             new_failures.sort(key=lambda t: (t[3] is not None, len(t[0])))
         if new_failures and new_failures[0][3]:
             # a real-time failure: the timeline is its own minimal replay (it cannot be shrunk without its sleeps)
-            ops, steps, idx, T = new_failures[0]
+            ops, steps, idx, T, _h = new_failures[0]
             what = "; ".join("%s: %s" % kd for kd in steps[idx]["oracle"])
             ro = replay_obj(ops, steps, idx, quirks)
             ro["timed_T"] = T
@@ -790,33 +889,35 @@ def main(tier, seed):
                           {"replay": ro, "lean_errors": errs[:5], "obligation": "Ferrous.C16.claim_resets_idle"})
         elif new_failures:
             new_failures.sort(key=lambda t: len(t[0]))
-            ops, steps, idx, _ = new_failures[0]
+            ops, steps, idx, _, via_handlers = new_failures[0]
             ops = ops[:idx + 1]
+            srun = hrun if via_handlers else run
 
             def still(steps2):
                 k, u = first_failures(steps2)
                 u += [(i, s) for sh, (i, s) in k.items() if sh not in by_shape]
                 return bool(u)
-            small = shrink_history(run, ops, still)
-            steps2 = run.run_history(small)
+            small = shrink_history(srun, ops, still)
+            steps2 = srun.run_history(small)
             k, u = first_failures(steps2)
             u += [(i, s) for sh, (i, s) in k.items() if sh not in by_shape]
             i = min(x[0] for x in u) if u else len(small) - 1
             what = "; ".join("%s: %s" % kd for kd in steps2[i]["oracle"]) if u else "oracle failure (not reproduced after shrinking)"
             rep.violation("C16 oracle fails on the implementation at `%s`: %s" % (small[i], what),
-                          {"replay": replay_obj(small, steps2, i, quirks), "lean_errors": errs[:5],
+                          {"replay": dict(replay_obj(small, steps2, i, quirks), handlers=via_handlers), "lean_errors": errs[:5],
                            "other_failing_histories": [t[0][:t[2] + 1] for t in new_failures[1:4] if not t[3]]})
         elif not ok:
             rep.violation("proof obligations of C16 no longer check", {"theorem_errors": errs[:10], "log_tail": log[-3000:]}, no_input=True)
         elif disagreements:
             disagreements.sort(key=lambda d: (d["timed"] is not None, len(d["ops"])))
             d = disagreements[0]
-            small = d["ops"] if d["timed"] else shrink_list(d["ops"], lambda cand: any(s["impl"] != s["code"] for s in run.run_history(cand)))
+            drun = hrun if d["handlers"] else run
+            small = d["ops"] if d["timed"] else shrink_list(d["ops"], lambda cand: any(s["impl"] != s["code"] for s in drun.run_history(cand)))
             rep.violation("correspondence Code (Lean model of consumer_groups.rs / read_group) vs implementation broke (%d histories) but the property oracles hold on everything explored"
                           % len(disagreements),
                           {"correspondence": "Ferrous.Grp.Code.gstep / St.* vs Stream + ConsumerGroup with verif_dump()", "tree_switches": quirks,
                            "extraction_problems": problems, "timed_T": d["timed"],
-                           "replay": replay_obj(small, d["steps"] if d["timed"] else run.run_history(small), len(small) - 1, quirks)}, no_input=True)
+                           "replay": dict(replay_obj(small, d["steps"] if d["timed"] else drun.run_history(small), len(small) - 1, quirks), handlers=d["handlers"])}, no_input=True)
     finally:
         run.close()
         hrun.close()
@@ -837,7 +938,7 @@ def replay(path):
     quirks, _ = detect_quirks()
     findings = load_findings()
     by_shape = {f["match"]: f for f in findings}
-    run = Runner(rep, quirks)
+    run = Runner(rep, quirks, handlers=bool(rp.get("handlers")))
     try:
         if rp.get("timed_T"):
             steps = Timed([run], rp["timed_T"]).run(ops)[0]
